@@ -89,6 +89,7 @@ type Engine struct {
 	res     *PathResult
 	harness string
 	funcs   map[string]bool
+	allocNo map[*Loc]uint64 // numbering of allocations whose address was converted to uintptr
 	newBlocks []string
 	exts    map[string]bool
 	conc    map[string]int64
